@@ -43,10 +43,10 @@ DESCRIPTION = {
         "where a statement leaves an unqualified column with several candidate owners, the comparison is exact only if a provider is in use and exactly one candidate is known to define the column; otherwise only containment in the candidate set is required (the statement does not say more)",
         "scripts whose expected column graph has a cycle are skipped (no sources/sinks to enumerate paths from) and counted",
         "registered column lists are compared as sets",
-        "deterministic in (script, metadata): the fault dimension is degenerate (hash seed only); provider stalls/failures are decided under C12",
+        "deterministic in (script, metadata): the fault dimension is small - the hash seed, and in 30% of the runs an earlier analysis on the same provider object that was aborted by a bad statement after registering tables; provider stalls/failures and thread interleavings are decided under C12",
     ],
     "required_probes": {
-        "quick": ["chain_consumed", "wildcard_from_session", "unqualified_resolved_by_session", "end_at_intermediate", "session_lookup_hit", "paths_compared"],
+        "quick": ["chain_consumed", "wildcard_from_session", "unqualified_resolved_by_session", "end_at_intermediate", "session_lookup_hit", "paths_compared", "after_aborted_run"],
         "thorough": ["chain_consumed", "wildcard_from_session", "unqualified_resolved_by_session", "end_at_intermediate", "session_lookup_hit", "paths_compared"],
     },
 }
@@ -157,6 +157,13 @@ def run_one(spec: dict) -> dict:
     kwargs = {"dialect": spec["dialect"]}
     if prov is not None:
         kwargs["metadata_provider"] = prov
+    # history: an earlier run on the SAME provider object that was aborted part-way (a bad statement after it had
+    # taught the session something); what this script's statements then know must not depend on it
+    if spec.get("aborted_before"):
+        try:
+            LineageRunner(";\n".join(spec["aborted_before"]), **kwargs).get_column_lineage()
+        except Exception:
+            probe("after_aborted_run")
     tapmod.set_tap(tap)
     try:
         runner = LineageRunner(";\n".join(script), **kwargs)
@@ -404,7 +411,13 @@ def gen(seed) -> dict:
             continue
         script.append(s)
         annot.append(a)
-    return {"seed": seed, "script": script, "annot": annot, "provider": ps, "dialect": dialect}
+    spec = {"seed": seed, "script": script, "annot": annot, "provider": ps, "dialect": dialect}
+    if g.random() < 0.3:
+        g3 = stream(seed, "aborted")
+        pre = ScriptGen(g3, f"k{seed % 1000}", known=base, allow_drop_rename=False).script(g3.choice([1, 2, 3]))
+        pre.append("SELECT FROM WHERE")
+        spec["aborted_before"] = pre
+    return spec
 
 
 def plan(seed: int, tier: str) -> list[dict]:
@@ -430,6 +443,10 @@ def shrink_candidates(spec):
             s["script"] = spec["script"][:i] + spec["script"][i + 1:]
             s["annot"] = spec["annot"][:i] + spec["annot"][i + 1:]
             out.append(s)
+    if spec.get("aborted_before"):
+        s = dict(spec)
+        s.pop("aborted_before")
+        out.append(s)
     if spec.get("provider") and spec["provider"]["meta"]:
         for t in list(spec["provider"]["meta"]):
             s = json.loads(json.dumps(spec))
